@@ -709,7 +709,19 @@ struct Sim {
             a.kind = Act::TIME;
         } else if (c == "P") {
             a.prio_delta = p[2] == "+" ? PRIO_DELTA : -PRIO_DELTA;
-            if (p[1] == "n") {
+            if (p[1] == "d") {
+                // P:d:+  prioritise the tx D:z would make by +1000;  P:d:-  prioritise the tx D:h would make by minus its fee
+                Act dx = Build(p[2] == "+" ? "D:z" : "D:h", s);
+                if (dx.kind != Act::SUBMIT) return a;
+                a.prio_txid = dx.txs[0]->GetHash();
+                if (s.deltas.count(a.prio_txid)) return a;
+                if (p[2] == "-") {
+                    CAmount in = 0, out = 0;
+                    for (auto& i : dx.txs[0]->vin) in += ValueOf(s, i.prevout).value_or(0);
+                    for (auto& o2 : dx.txs[0]->vout) out += o2.nValue;
+                    a.prio_delta = -(in - out);
+                }
+            } else if (p[1] == "n") {
                 Act nx = Build("N:2:z", s);
                 if (nx.kind != Act::SUBMIT) return a;
                 a.prio_txid = nx.txs[0]->GetHash();
@@ -768,6 +780,7 @@ struct Sim {
         if (o.has("W")) for (const char* k : {"a", "b", "c", "d"}) cand.push_back(std::string("W:") + k);
         if (o.has("NX")) { for (const char* k : {"NF", "NU", "NI", "NM"}) cand.push_back(k); if (!addr.empty()) cand.push_back("S:0"); }
         if (o.has("P") && o.prio_next) cand.push_back("P:n:+");
+        if (o.has("P") && o.has("D")) { cand.push_back("P:d:+"); cand.push_back("P:d:-"); }
         if (o.has("M")) { cand.push_back("M:0"); cand.push_back("M:1"); cand.push_back("M:a"); }
         if (o.has("I")) cand.push_back("I");
         if (o.has("X")) cand.push_back("X");
@@ -779,7 +792,7 @@ struct Sim {
             if (o.guarded) {
                 std::string k = SplitLabel(c)[0];
                 if (menu_tx_in_pool && (k == "NY" || k == "NL" || k == "NQ" || k == "PK" || k == "PE" || k == "D")) continue;
-                if (!menu_tx_in_pool && k == "T") continue;
+                if (s.txs.empty() && k == "T") continue;
                 if (!menu_tx_in_pool && s.height <= base_height && (k == "I" || k == "X")) continue;
             }
             if (Build(c, s).kind != Act::NONE) ev.push_back(c);
